@@ -85,10 +85,10 @@ def gen_plan(seed, tier="quick", variant=None):
         if rng.random() < 0.4:
             ops.append({"t": round(rng.random() * horizon * 1.5, 6), "op": "close"})
         # application reacting inside a completion callback
-        expecting = [o["id"] for o in ops if o["op"] == "req" and o["expect"]]
+        expecting = [o["id"] for o in ops if o["op"] == "req"]
         for _ in range(rng.choice([0, 0, 1, 2]) if expecting else 0):
-            # (triggers are requests that expect a reply: a callback run from inside the connect-time
-            # flush of no-reply requests reaches behaviour no listed property speaks about, see DESIGN 7)
+            # (a request that expects no reply fires from inside the write - at connect time from inside the flush of
+            # the queued requests: since the repair F29 the flush skips what such a callback cancelled or closed)
             trig = rng.choice(expecting)
             kind = rng.choice(["cancel", "req", "disconnect", "close"])
             o = {"after": trig, "op": kind}
